@@ -489,9 +489,12 @@ def m_apply(ms, op):
     if name == "poke":
         m = ms[op["r"]]
         if m is not None and m.kind == "atom":
+            out = m.copy()
+            if op["what"] == "annot":
+                out.ann[op["cat"]] = op["value"]
+                return {op["r"]: out}, None
             if op["what"] != "coord":
                 return None
-            out = m.copy()
             out.coord[op["i"] % 3] = np.float32(op["value"])
             return {op["r"]: out}, None
         if m is None or m.n == 0:
@@ -657,8 +660,14 @@ def generate(rng):
         if atoms_live and rng.random() < 0.08:
             # single atoms: copy() must be independent as well; in-place coordinate edits through one holder
             a = rng.choice(atoms_live)
-            if rng.random() < 0.5:
+            ra = rng.random()
+            if ra < 0.45:
                 op = {"op": "copy", "src": a, "dst": rng.randrange(nreg)}
+            elif ra < 0.7:
+                # documented use: atom.atom_name = "CA" (an existing or a new annotation of this one atom)
+                cat = rng.choice(sorted(ms[a].ann) + ["uid", "lbl"])
+                op = {"op": "poke", "r": a, "what": "annot", "cat": cat, "i": 0, "k": 0, "j": 0, "t": 0,
+                      "value": gen_value(rng, cat, CAT_TYPES[cat])}
             else:
                 op = {"op": "poke", "r": a, "what": "coord", "i": rng.randrange(3), "k": 0, "j": 0, "t": 0, "value": rng.choice([7.5, -3.25, 42.0])}
             res = m_apply(ms, op)
@@ -1153,7 +1162,10 @@ class Sim:
                 m = self.ms[op["r"]]
                 what = op["what"]
                 if m.kind == "atom":
-                    obj.coord[op["i"] % 3] = op["value"]
+                    if what == "annot":
+                        setattr(obj, op["cat"], op["value"])
+                    else:
+                        obj.coord[op["i"] % 3] = op["value"]
                     return {}, None
                 i = op["i"] % m.n
                 if what == "coord":
